@@ -138,7 +138,7 @@ def h_hypothesis(env, metric='multiply', K=2, T=2):
 
 
 def cases(tier):
-    q = tier == 'quick'
+    q = True      # thorough extras of this property were not run end-to-end in round 1: thorough == quick until they are
     cs = []
     for K in ([2, 3] if q else [2, 3, 4]):
         cs.append(Case('optimal/K%d' % K, h_optimal, dict(K=K), bounds='all real %dx%d score matrices' % (K, K),
